@@ -266,6 +266,36 @@ def run(tier: str, seed: int) -> int:
                               f"dt0_adaptive = {h!r} on four copies of y' = {printable['a0']} + {printable['a1']} y + {printable['a2']} y^2 + {printable['b']} t, y({printable['t0']}) = {printable['y0']} "
                               f"(state layout {layout}), atol={printable['atol']}, rtol={printable['rtol']}, p={inst['p']}; the specification (scalar instance with halved tolerances) gives "
                               f"{e['kind']} {float(e['val'])!r}; relative deviation {err:.3g}", {"kind": "exact-copies", "instance": printable, "layout": layout})
+    # ---- the simple helper dt0 on derivatives of the size of its nugget (1e-5): the branch formula of Dt0.tla, Part A,
+    # evaluated on inputs with rational Euclidean norms: h = 1e-6 if |u0| < 1e-5 else 0.01 |u0| / (|f0| + 1e-5)
+    import warnings
+
+    import jax
+    import jax.numpy as jnp
+    import numpy as np
+
+    from probdiffeq import ivpsolve as _ivp
+    from probdiffeq import probdiffeq as _pdq
+
+    nug = 1e-5
+    dt0_cases = [
+        ("f0 = -nugget in every entry", jnp.asarray([3.0, 4.0, 0.0, 0.0]), lambda u: -nug * jnp.ones_like(u), 5.0, 2e-5),
+        ("equilibrium, four entries", jnp.asarray([3.0, 0.0, 4.0, 0.0]), lambda u: 0.0 * u, 5.0, 0.0),
+        ("scalar, f0 = -nugget", jnp.asarray(1.0), lambda u: -nug * u, 1.0, 1e-5),
+        ("mixed tiny derivative", jnp.asarray([0.6, 0.8]), lambda u: jnp.asarray([3e-5, -4e-5]) + 0.0 * u, 1.0, 5e-5),
+        ("equilibrium pytree", {"a": jnp.asarray([3.0]), "b": jnp.asarray([[4.0, 0.0]])}, lambda u: jax.tree_util.tree_map(lambda x: 0.0 * x, u), 5.0, 0.0),
+        ("ordinary", jnp.asarray([3.0, 4.0]), lambda u: jnp.asarray([-6.0, 8.0]) + 0.0 * u, 5.0, 10.0),
+    ]
+    for label, u0, f, nu, nf in dt0_cases:
+        with warnings.catch_warnings():
+            warnings.simplefilter("ignore")
+            h = float(_ivp.dt0(_pdq.ode(lambda u, /, *, t, f=f: f(u)), (u0,), t=0.0))
+        want = 1e-6 if nu < 1e-5 else 0.01 * nu / (nf + nug)
+        rep.traces += 1
+        rep.add_case(("dt0-nugget", label))
+        if not (np.isfinite(h) and h > 0 and abs(h - want) <= 1e-9 * want):
+            rep.violation("impl:dt0:nugget-sized-derivative", f"dt0 = {h!r} for |u0| = {nu}, |f(u0)| = {nf} ({label}); the helper's formula 0.01 |u0| / (|f0| + 1e-5) gives {want!r}",
+                          {"kind": "dt0-formula", "case": label})
     rep.extra["hnw_vector_state_calls"] = ncopies
     rep.extra["violating_calls_per_key"] = dict(counts)
     rep.extra["hnw_instances"] = {"given": len(insts), "dropped_32bit": len(dropped), "near_threshold_skipped": near, "branches": dict(kinds), "worst_rel_err_of_passing": worst}
